@@ -25,7 +25,7 @@ from ..models import headers_spec as HS
 
 PROPERTY = "C13"
 ALPHABET = ("send_headers variants {valid, no-:path, duplicate pseudo, wrong-role pseudo, valid+priority, priority weight 0, priority self-dependency, "
-            "+-END_STREAM, 1xx, 1xx+END_STREAM, trailers +-END_STREAM, trailers with pseudo-header}, push_stream {valid, invalid list, bad parent}, "
+            "+-END_STREAM, 1xx, 1xx+END_STREAM, trailers +-END_STREAM, trailers with pseudo-header}, push_stream {valid, invalid list, bad parent, promised id already used, promised id odd}, "
             "reset_stream, peer HEADERS opening streams, peer SETTINGS HEADER_TABLE_SIZE {0,64,4096,8192}; streams {1,3} (+ promised 2,4)")
 BOUNDS = {"quick": "depth 5 per role", "thorough": "depth 7 per role (or time budget, reported)"}
 sb = H.stateless_block
@@ -109,6 +109,8 @@ class Spec:
                 acts.append("rx:H:%d" % sid)
                 acts.append("push:%d:ok" % sid)
                 acts.append("push:%d:bad" % sid)
+                acts.append("push:%d:lowid" % sid)      # valid list, promised id already used (or 0)
+                acts.append("push:%d:oddid" % sid)      # valid list, promised id of the client's parity
         for v in (0, 64, 4096, 8192):
             acts.append("rx:hts:%d" % v)
         return acts
@@ -161,6 +163,10 @@ class Spec:
             hdrs = list(REQ) + [fresh("push%d" % parent)]
             if parts[2] == "bad":
                 hdrs = [x for x in hdrs if x[0] != b":scheme"]
+            elif parts[2] == "lowid":
+                promised = h.m.hi_local
+            elif parts[2] == "oddid":
+                promised = 9
             o = h.api("push_stream", parent, promised, hdrs)
             if parts[2] == "ok":
                 expect_list = ("push", hdrs)
